@@ -25,6 +25,24 @@ def variant_of(a):
     return ps[0].rsplit('::', 1)[-1] if ps else None
 
 
+def fold_break_sites(F):
+    """[(method, handles Break(0)?, loc)] for every method of a *Fold* builtin that calls its fold body (fn pointer) in a loop"""
+    site_fns = {fn for fn, ms in F.matches.items() for m in ms if m['kind'] == 'Normal' and any('NErr::Break(int:0' in pat_str(a['pat']) for a in m['arms'])}
+    out = []
+    for imp in F.impls_of('core::Builtin'):
+        if 'Fold' not in imp['self_ty']:
+            continue
+        for mname in ('run', 'run1', 'run2'):
+            fn = F.impl_fn(imp, mname)
+            if not fn or not F.has_fn(fn):
+                continue
+            fb_ = F.body(fn)
+            drives = [c for c in fb_.calls if c.is_indirect and fb_.on_cycle(c.bb)]
+            if drives:
+                out.append((fn, fn in site_fns, drives[0].loc()))
+    return out
+
+
 def run(F, rep, tier):
     evaluate = F.anchor('eval::evaluate')
     eb = F.body(evaluate)
@@ -236,7 +254,13 @@ def run(F, rep, tier):
                 rep.ok('R5.4', '%s other errors' % site, 'propagated unchanged')
             elif dflt:
                 rep.viol('R5.4', '%s|default' % site, 'the catch-all error arm rebuilds an error', where)
-    rep.floor('R5.4', 'loop/fold exit sites', nsites, 9)
+    rep.floor('R5.4', 'loop/fold exit sites', nsites, 10)
+    # a fold body signals its early exit with Break(0, value): every method that drives a fold body must translate it
+    for fn, okf, loc_ in fold_break_sites(F):
+        if okf:
+            rep.ok('R5.4', '%s drives a fold body' % fn, 'Break(0, v) is turned into the result, Break(n) decremented')
+        else:
+            rep.viol('R5.4', '%s|fold-break-unhandled' % fn, '%s calls the fold body in a loop without translating its early-exit signal Break(0, value): `any([0, 1])` ends with a stray break that is neither a value nor caught by try, and terminates an enclosing loop' % fn, loc_)
     # evaluate_for callback wrapper: Continue(0) absorbed, Break not caught
     em = [m for m in F.matches.get(ef, []) if m['kind'] == 'Normal' and any('NErr::Continue(int:0' in pat_str(a['pat']) for a in m['arms'])]
     if em and not any('NErr::Break' in pat_str(a['pat']) for a in em[0]['arms']):
